@@ -35,6 +35,12 @@ CONFIGS = {
             "aranya-policy-vm/std", "aranya-capi-core/std",
         ],
     },
+    # aranya-runtime's small-device constants (COMMAND_RESPONSE_MAX = 5, MAX_COMMAND_LENGTH = 400, ...):
+    # the sync and storage rules must hold for these bounds too (thorough tier)
+    "lowmem": {
+        "packages": ["aranya-runtime"],
+        "features": ["aranya-runtime/libc", "aranya-runtime/std", "aranya-runtime/testing", "aranya-runtime/low-mem-usage"],
+    },
     "cas": {
         "packages": ["aranya-fast-channels"],
         "features": [
